@@ -13,7 +13,7 @@
 EXTENDS Integers, Sequences, FiniteSets, TLC
 SX == INSTANCE SequencesExt
 
-CONSTANTS Names, MaxDepth, Perms, Datas, Times, RootOps, MaxTreeDepth, MaxNodes,  \* FSCore's (MaxDepth = 0 here)
+CONSTANTS Names, MaxDepth, Perms, Datas, Times, RootOps, MaxTreeDepth, MaxNodes, FlagSets,  \* FSCore's (MaxDepth = 0 here)
           Tokens,     \* all tokens raw names are built from
           MaxTok,     \* raw names have 1..MaxTok tokens
           ValidName   \* a fixed valid name used as the other argument of two-name calls
